@@ -331,6 +331,11 @@ func (l *uint64LeafNode) unlock() { l.mutex.Unlock() }
 type Uint64Tree struct {
 	root  uint64Node
 	order int
+
+	// rootMutex guards the root field. It is held while root is read or
+	// replaced, and released only once the root node itself is locked, so a
+	// descent can never start from a stale root.
+	rootMutex sync.Mutex
 }
 
 // NewUint64Tree returns a newly initialized Uint64Tree of the specified
@@ -350,6 +355,8 @@ func NewUint64Tree(order int) (*Uint64Tree, error) {
 
 // Delete removes the key-value pair from the tree.
 func (t *Uint64Tree) Delete(key uint64) {
+	t.rootMutex.Lock()
+	defer t.rootMutex.Unlock()
 	t.root.lock()
 	defer t.root.unlock()
 
@@ -368,6 +375,7 @@ func (t *Uint64Tree) Delete(key uint64) {
 // Insert inserts the key-value pair into the tree, replacing the existing value
 // with the new value if the key is already in the tree.
 func (t *Uint64Tree) Insert(key uint64, value interface{}) {
+	t.rootMutex.Lock()
 	n := t.root
 	n.lock()
 
@@ -390,6 +398,7 @@ func (t *Uint64Tree) Insert(key uint64, value interface{}) {
 			n = right
 		}
 	}
+	t.rootMutex.Unlock()
 
 	for n.isInternal() {
 		parent := n.(*uint64InternalNode)
@@ -467,8 +476,10 @@ func (t *Uint64Tree) Insert(key uint64, value interface{}) {
 func (t *Uint64Tree) Search(key uint64) (interface{}, bool) {
 	var value interface{}
 	var ok bool
+	t.rootMutex.Lock()
 	n := t.root
 	n.lock()
+	t.rootMutex.Unlock()
 	for n.isInternal() {
 		parent := n.(*uint64InternalNode)
 		child := parent.children[uint64SearchLessThanOrEqualTo(key, parent.runts)]
@@ -497,6 +508,7 @@ func (t *Uint64Tree) Search(key uint64) (interface{}, bool) {
 // returns, the key will exist in the tree with the new value returned by the
 // callback function.
 func (t *Uint64Tree) Update(key uint64, callback func(interface{}, bool) interface{}) {
+	t.rootMutex.Lock()
 	n := t.root
 	n.lock()
 
@@ -519,6 +531,7 @@ func (t *Uint64Tree) Update(key uint64, callback func(interface{}, bool) interfa
 			n = right
 		}
 	}
+	t.rootMutex.Unlock()
 
 	for n.isInternal() {
 		parent := n.(*uint64InternalNode)
@@ -603,8 +616,10 @@ func (t *Uint64Tree) Update(key uint64, callback func(interface{}, bool) interfa
 // of the locked node. The leaf node is only unlocked either by closing the
 // Cursor, or after all key-value pairs have been visited using Scan.
 func (t *Uint64Tree) NewScanner(key uint64) *Uint64Cursor {
+	t.rootMutex.Lock()
 	n := t.root
 	n.lock()
+	t.rootMutex.Unlock()
 	for n.isInternal() {
 		parent := n.(*uint64InternalNode)
 		child := parent.children[uint64SearchLessThanOrEqualTo(key, parent.runts)]
